@@ -87,21 +87,24 @@ static void put_unsigned(StreamModel * s, unsigned long v) {
 static void put_signed(StreamModel * s, long v) {
     if (v < 0) { put(s, '-'); put_unsigned(s, (unsigned long)(-(v + 1)) + 1); } else put_unsigned(s, (unsigned long)v);
 }
+// the std::string returned by str(): the contents fit libstdc++'s 15-character local buffer, the object is filled in directly
+// (libstdc++ layout: pointer to the local buffer, length, NUL-terminated characters)
+static void sso_make(std::string * ret, StreamModel * s) {
+    VASSERT(s->len <= 15, "bound: stream contents fit the SSO buffer of the returned std::string");
+    ret->_M_dataplus._M_p = ret->_M_local_buf;
+    for (int i = 0; i < 15; i++) ret->_M_local_buf[i] = i < s->len ? s->buf[i] : (char)0;
+    ret->_M_local_buf[15] = 0;
+    ret->_M_string_length = s->len <= 15 ? (size_t)s->len : 15;
+}
 extern "C" {
 // constructors / destructors of std::stringstream and std::ostringstream (default open mode, empty contents)
 void stub_ss_ctor(std::stringstream * self) { stream_new(static_cast<std::ostream *>(self)); }
 void stub_ss_dtor(std::stringstream * self) { stream_of(static_cast<std::ostream *>(self))->os = nullptr; }
 void stub_oss_ctor(std::ostringstream * self) { stream_new(static_cast<std::ostream *>(self)); }
 void stub_oss_dtor(std::ostringstream * self) { stream_of(static_cast<std::ostream *>(self))->os = nullptr; }
-// str(): a std::string (real constructor) with the buffer's contents
-void stub_ss_str(std::string * ret, std::stringstream const * self) {
-    StreamModel * s = stream_of(static_cast<std::ostream const *>(self));
-    ::new ((void *)ret) std::string(s->buf, (size_t)s->len);
-}
-void stub_oss_str(std::string * ret, std::ostringstream const * self) {
-    StreamModel * s = stream_of(static_cast<std::ostream const *>(self));
-    ::new ((void *)ret) std::string(s->buf, (size_t)s->len);
-}
+// str(): a std::string with the buffer's contents (sso_make)
+void stub_ss_str(std::string * ret, std::stringstream const * self) { sso_make(ret, stream_of(static_cast<std::ostream const *>(self))); }
+void stub_oss_str(std::string * ret, std::ostringstream const * self) { sso_make(ret, stream_of(static_cast<std::ostream const *>(self))); }
 // inserters
 std::ostream * stub_os_cstr(std::ostream * os, const char * p) { put_cstr(stream_of(os), p); return os; }
 std::ostream * stub_os_char(std::ostream * os, char c) { put(stream_of(os), c); return os; }
@@ -240,6 +243,3 @@ extern "C" void h_print_const() {
     check_one(n, d);
     witnesses();
 }
-#ifdef PC_ONE
-extern "C" void h_print_const_one() { check_one(-3, 4); witnesses(); }
-#endif
